@@ -109,6 +109,7 @@ Inductive label :=
 | LSubmit (k : nat) (rq : request)
 | LRestart (m : rmode)
 | LFailedStart (m : rmode)
+| LRestartInit (m : rmode) (b : list bool)   (* a start with a SEPARATE init state file holding the bitmap b (any bits) *)
 | LUnlink.                    (* somebody unlinks the cache file while the process runs *)   (* NewSparseFile returns an error AFTER it replaced the state and resized the cache file *)
 
 Record sstate := mkstate {
@@ -215,7 +216,8 @@ Section Loader.
   Definition state_matches (b : list bool) : bool := (List.length b =? n)%nat.
 
   (* NewSparseFile on (cache file, state file) left by the previous incarnation *)
-  Definition restart (s : sstate) (m : rmode) : sstate :=
+  (* [src]: the content of the StateInitFile, if one is given and readable *)
+  Definition restart_gen (s : sstate) (m : rmode) (src : option (list bool)) : sstate :=
     let cache := if s_nofile s then [] else
                  match m_cache m with
                  | CKeep => s_file s
@@ -227,8 +229,9 @@ Section Loader.
       mkstate (match s_saved s with Some b => b | None => [] end) cache (s_calls s) (repeat false n) (s_saved s)
               [] (s_log s) false false (s_fetched s)
     else
-      let preload := match s_saved s with
-                     | Some b => if m_preload m && m_state m && state_matches b then
+      (* preloadChunksFromState: one loadChunk per set bit -- null chunks included, the pre-loader does not look at IDs *)
+      let preload := match src with
+                     | Some b => if m_preload m && state_matches b then
                                    map (fun i => mkthread [RqLoad i] None)
                                        (filter (fun i => nth i b false) (seq 0 n))
                                  else []
@@ -238,6 +241,10 @@ Section Loader.
       mkstate (repeat false n) (resize cache L) (s_calls s) (repeat false n) (Some (repeat false n))
               preload (s_log s) false false (s_fetched s).
 
+  (* the usual configuration: the state file is both the save file and the init file *)
+  Definition restart (s : sstate) (m : rmode) : sstate :=
+    restart_gen s m (if m_state m then s_saved s else None).
+
   Definition valid_request (rq : request) : bool :=
     match rq with RqLoad i => (i <? n)%nat | _ => true end.
 
@@ -246,6 +253,7 @@ Section Loader.
     | LUnlink => Some (mkstate (s_done s) (s_file s) (s_calls s) (s_mutex s) (s_saved s) (s_threads s) (s_log s)
                                (s_crashed s) true (s_fetched s))
     | LRestart m => Some (restart s m)
+    | LRestartInit m b => Some (restart_gen s m (Some b))   (* a bitmap of the wrong length: start-up fails late, as LFailedStart *)
     | LFailedStart m =>
         (* A start-up that fails late: the state to pre-load from is read, the saved state is replaced, the cache file
            is brought to full size, and only then pre-loading refuses the init state (wrong length): no worker is
